@@ -3,14 +3,14 @@
 # the set of passing tests with /root/.vp/BASELINE.json (stable_pass). Exit 0 iff every
 # baseline-stable test still passes.
 set -u
-cd /repo
+cd "${BASELINE_REPO:-/repo}"
 unset RUSTFLAGS
 export CARGO_NET_OFFLINE=true RUST_BACKTRACE=0
 OUT=${1:-/verif/work/baseline}
 mkdir -p "$OUT"
 if cargo nextest --version >/dev/null 2>&1 && [ -f /w/lib/nextest.toml ]; then
   cargo nextest run --workspace --no-fail-fast --tool-config-file pb:/w/lib/nextest.toml --profile pb --test-threads 8 --offline > "$OUT/log.txt" 2>&1
-  JUNIT=/repo/target/nextest/pb/junit.xml
+  JUNIT="${BASELINE_REPO:-/repo}/target/nextest/pb/junit.xml"
   python3 - "$JUNIT" <<'PY'
 import sys, json, xml.etree.ElementTree as ET
 root = ET.parse(sys.argv[1]).getroot()
